@@ -236,3 +236,30 @@ func TestLockOrderDeadlock(t *testing.T) {
 	}
 	t.Logf("lock-order inversion: %d schedules deadlock, %d do not", dead, fine)
 }
+
+// TestSleepWhileHoldingLock: a task sleeps while holding a mutex that the others
+// spin on. Not a deadlock: the clock must advance and everybody finishes.
+func TestSleepWhileHoldingLock(t *testing.T) {
+	for seed := uint64(0); seed < 40; seed++ {
+		var r *Report
+		n := 0
+		bubble(t, func() {
+			res := make(chan int, 1)
+			defer func() { n = <-res }()
+			r = Run(Config{Seed: seed, MaxSteps: 100000}, synctest.Wait, func() {
+				var mu sync.Mutex
+				var wg sync.WaitGroup
+				cnt := 0
+				wg.Add(3)
+				Go(1, func() { Lock(&mu, 2); Sleep(3e9, 8); cnt++; mu.Unlock(); WGDone(&wg, 4) })
+				Go(1, func() { Lock(&mu, 2); cnt++; mu.Unlock(); WGDone(&wg, 4) })
+				Go(1, func() { Lock(&mu, 2); cnt++; mu.Unlock(); WGDone(&wg, 4) })
+				WGWait(&wg, 7)
+				res <- cnt
+			})
+		})
+		if r.Deadlock || r.StepCap || n != 3 {
+			t.Fatalf("seed %d: %d %+v", seed, n, r)
+		}
+	}
+}
